@@ -361,8 +361,25 @@ func genMetric(r *rand.Rand, mode string) metricIn {
 			e.Unwrap = unwrapIn{On: true, Label: B("v")}
 			e.Grp = grpIn{Mode: "without", Labels: IntsList{B("v"), B(pick(r, names))}}
 		}
+		if r.Intn(2) == 0 {
+			// a second grouping on top of the first: the series of the inner aggregation keep their identity from step to
+			// step whatever the outer clause does with their label sets
+			g := grpIn{Mode: []string{"by", "without"}[r.Intn(2)], Labels: IntsList{B(pick(r, names))}}
+			if r.Intn(2) == 0 {
+				g.Labels = append(g.Labels, B(pick(r, []string{"v", "x", "c"})))
+			}
+			e = &mexprIn{T: "vecagg", Op: []string{"count", "sum", "max"}[r.Intn(3)], Grp: g, E: e,
+				Sel: []matcherIn{}, Stages: []stageIn{}, Param: Ints{0, 1}, V: Ints{0, 1}, Unwrap: unwrapIn{Label: Ints{}}}
+		}
 		in.Expr = *e
 		in.Evals = []evalIn{{Start: mBase + 50, End: mBase + 50, Step: 0}, {Start: mBase + 40, End: mBase + 60, Step: 10}}
+		if r.Intn(2) == 0 {
+			// samples keep arriving between the steps (never on a window edge: the range is 100 s)
+			for i := range in.Recs {
+				in.Recs[i].TS = []int{mBase + 1 + 5*i, 0}
+			}
+			in.Evals[1] = evalIn{Start: mBase + 20, End: mBase + 60, Step: 10}
+		}
 		in.Reps = 8
 	}
 	return in
